@@ -42,7 +42,7 @@ fn main() {
     if args[0] == "--dump" {
         let text = std::fs::read_to_string(&args[1]).unwrap();
         let v: serde_json::Value = serde_json::from_str(&text).unwrap();
-        if !checks::c20::dump(&v["case"]) {
+        if !checks::c20::dump(&v["case"]) && !checks::c19::dump_case(&v["case"]) {
             checks::common::dump_case(&v["case"]);
         }
         return;
